@@ -20,7 +20,7 @@ fn meta(ctx: &Ctx) -> Meta {
     Meta {
         level: "exploration",
         rule: format!(
-            "operation histories over {{sign with RSA-4096, protected RSA-3072, Ed25519, ECDSA-P256; clear signatures; write + re-parse}}: ALL sequences up to length {} from built packages with and without files, seeded random histories up to length {} from further built packages and from the six asset packages (unsigned, RSA-signed, IMA-signed, source rpm). After EVERY step a 3-line sequential model (last signer since the last clear) is compared with: verify_signature under each of the four public keys (must succeed exactly for the last signer), signature_key_ids() (exactly that key's id, derived independently with the pgp crate), verify_digests(), and byte identity of header+payload with the starting package. distinct_nontrivial = distinct (start, history prefix) states checked",
+            "operation histories over {{sign with RSA-4096, protected RSA-3072, Ed25519, ECDSA-P256; clear signatures; write + re-parse; a FAILING signing attempt (protected key without passphrase), which must leave the package unchanged}}: ALL sequences up to length {} from built packages with and without files, seeded random histories up to length {} from further built packages and from the six asset packages (unsigned, RSA-signed, IMA-signed, source rpm). After EVERY step a 3-line sequential model (last signer since the last clear) is compared with: verify_signature under each of the four public keys (must succeed exactly for the last signer), signature_key_ids() (exactly that key's id, derived independently with the pgp crate), verify_digests(), and byte identity of header+payload with the starting package. distinct_nontrivial = distinct (start, history prefix) states checked",
             ctx.tier.pick(3, 4),
             ctx.tier.pick(8, 12)
         ),
@@ -34,6 +34,9 @@ enum Op {
     Sign(usize),
     Clear,
     Reparse,
+    /// a signing attempt that fails (passphrase-protected key without its passphrase): must return
+    /// an error and leave the package as it was
+    FailSign,
 }
 
 fn op_name(o: Op, keys: &[Key]) -> String {
@@ -41,6 +44,7 @@ fn op_name(o: Op, keys: &[Key]) -> String {
         Op::Sign(k) => format!("sign({})", keys[k].name),
         Op::Clear => "clear".into(),
         Op::Reparse => "write+parse".into(),
+        Op::FailSign => "failed-sign(protected key without passphrase)".into(),
     }
 }
 
@@ -105,7 +109,7 @@ fn check_state(pkg: &Package, last: Last, keys: &[Key], key_ids: &[String], star
     v
 }
 
-fn run_history(start: &Package, start_last: Last, hist: &[Op], keys: &[Key], key_ids: &[String]) -> Result<(Vec<(String, String, usize)>, usize), String> {
+fn run_history(start: &Package, start_last: Last, hist: &[Op], keys: &[Key], key_ids: &[String], bad_signer: Option<&rpm::signature::pgp::Signer>) -> Result<(Vec<(String, String, usize)>, usize), String> {
     let start_hp = header_payload(start)?;
     let mut pkg = start.clone();
     let mut last = start_last;
@@ -116,6 +120,7 @@ fn run_history(start: &Package, start_last: Last, hist: &[Op], keys: &[Key], key
             Op::Sign(_) => "sign",
             Op::Clear => "clear",
             Op::Reparse => "reparse",
+            Op::FailSign => "failed-sign",
         };
         match op {
             Op::Sign(k) => {
@@ -129,6 +134,13 @@ fn run_history(start: &Package, start_last: Last, hist: &[Op], keys: &[Key], key
             Op::Reparse => {
                 let b = pkg_bytes(&pkg).map_err(|e| format!("write fails: {e}"))?;
                 pkg = Package::parse(&mut &b[..]).map_err(|e| format!("re-parse fails: {e}"))?;
+            }
+            Op::FailSign => {
+                let Some(bad) = bad_signer else { continue };
+                if pkg.sign_with_timestamp(bad, 1_600_000_000u32).is_ok() {
+                    out.push(("failing-sign-succeeds".to_string(), "signing with the protected key and no passphrase succeeds".to_string(), step));
+                    last = Last::Foreign;
+                }
             }
         }
         states += 1;
@@ -182,7 +194,12 @@ fn run(ctx: &Ctx, rep: &Report) {
     let key_ids: Vec<String> = keys.iter().map(key_id_hex).collect();
     rep.note(format!("key ids derived with the pgp crate: {:?}", keys.iter().map(|k| k.name).zip(key_ids.iter()).collect::<Vec<_>>()));
     // the exhaustive alphabet uses the four keys the property names; the fifth (RSA-2048) joins the random histories
-    let ops: Vec<Op> = vec![Op::Sign(0), Op::Sign(1), Op::Sign(2), Op::Sign(3), Op::Clear, Op::Reparse];
+    let ops: Vec<Op> = vec![Op::Sign(0), Op::Sign(1), Op::Sign(2), Op::Sign(3), Op::Clear, Op::Reparse, Op::FailSign];
+    // the protected key loaded WITHOUT its passphrase: every signing attempt with it fails
+    let bad_signer = std::fs::read(ctx.asset("tests/assets/signing_keys/secret_rsa3072_protected.asc")).ok().and_then(|b| rpm::signature::pgp::Signer::load_from_asc_bytes(&b).ok());
+    if bad_signer.is_none() {
+        rep.note("protected key not loadable: failing-sign operation skipped");
+    }
     // starting packages
     let dir = ctx.work_dir("starts");
     let mut starts: Vec<(String, Package, Last)> = Vec::new();
@@ -237,7 +254,7 @@ fn run(ctx: &Ctx, rep: &Report) {
             let mut r = Rng::for_case(ctx.seed, "C10-hist", (s * 1000 + j) as u64);
             let len = 1 + r.usize(maxlen);
             // cheap keys preferred in random histories (protected RSA-3072 signing costs 270 ms)
-            let h: Vec<Op> = (0..len).map(|_| [Op::Sign(2), Op::Sign(3), Op::Sign(0), Op::Sign(4), Op::Sign(3), Op::Sign(1), Op::Clear, Op::Reparse, Op::Reparse][r.usize(9)]).collect();
+            let h: Vec<Op> = (0..len).map(|_| [Op::Sign(2), Op::Sign(3), Op::Sign(0), Op::Sign(4), Op::Sign(3), Op::Sign(1), Op::Clear, Op::Reparse, Op::Reparse, Op::FailSign][r.usize(10)]).collect();
             jobs.push((s, h));
         }
     }
@@ -248,7 +265,7 @@ fn run(ctx: &Ctx, rep: &Report) {
         let names: Vec<String> = hist.iter().map(|o| op_name(*o, &keys)).collect();
         let w = |step: usize| json!({"start": label, "history": names, "failing_step": step});
         let mut local: BTreeMap<String, u64> = BTreeMap::new();
-        match guard(|| run_history(start, *last0, hist, &keys, &key_ids)) {
+        match guard(|| run_history(start, *last0, hist, &keys, &key_ids, bad_signer.as_ref())) {
             Ok(Ok((vs, states))) => {
                 rep.eval(states as u64);
                 *local.entry("states_checked".into()).or_insert(0) += states as u64;
